@@ -176,12 +176,32 @@ def main(tier: str) -> int:
     from fractions import Fraction as _Fr
     kcases = []
     for _ in range(40 if tier == "quick" else 300):
-        kname = rng.choice(["OneMax", "Sphere", "Schwefel12", "Rosenbrock", "Rastrigin", "Griewank", "Elliptic"])
+        kname = rng.choice(["OneMax", "Sphere", "Schwefel12", "Rosenbrock", "Rastrigin", "Griewank", "Elliptic", "Ackley"])
         nr, nc = rng.randint(0, 3), rng.randint(2 if kname == "Elliptic" else 1, 5)      # D = 1: the real condition exponent is 0/0
         den = 1 if kname == "Rastrigin" else rng.choice([1, 2, 4])        # integers for Rastrigin: cos(2 pi k) = 1
         Xk = np.array([[rng.randint(-6, 6) / den for _ in range(nc)] for _ in range(nr)], dtype=np.float64).reshape(nr, nc)
         kcases.append((kname, Xk))
-    cls_of = {"OneMax": OP.OneMax, "Sphere": OP.Sphere, "Schwefel12": OP.Schwefe1_2, "Rosenbrock": OP.Rosenbrock, "Rastrigin": OP.Rastrigin, "Griewank": OP.Griewank, "Elliptic": OP.HighConditionedElliptic}
+    cls_of = {"OneMax": OP.OneMax, "Sphere": OP.Sphere, "Schwefel12": OP.Schwefe1_2, "Rosenbrock": OP.Rosenbrock, "Rastrigin": OP.Rastrigin, "Griewank": OP.Griewank, "Elliptic": OP.HighConditionedElliptic, "Ackley": OP.Ackley}
+
+    class _NpProxy:
+        # numpy with exp / sqrt / cos replaced by exact stand-ins (the function parameters E, R, cs of the translated Ackley.f are set to
+        # the same stand-ins on the Lean side), so that the REAL code's arithmetic around them is compared exactly
+        def __getattr__(self, k):
+            return getattr(np, k)
+        exp = staticmethod(lambda u: np.asarray(u, dtype=np.float64) / 2 + 1)
+        sqrt = staticmethod(lambda u: np.asarray(u, dtype=np.float64) * 3)
+        cos = staticmethod(lambda u: 1 - (np.asarray(u, dtype=np.float64) / (2 * np.pi)) ** 2)
+    _ACK = "(fun u => u / 2 + 1) (fun u => 3 * u) (fun z => 1 - z * z) "
+
+    def _real_f(kname, Xk):
+        if kname != "Ackley":
+            return cls_of[kname]().f(Xk)
+        saved = OP.np
+        OP.np = _NpProxy()
+        try:
+            return OP.Ackley().f(Xk)
+        finally:
+            OP.np = saved
 
     def _cw_table(D):
         # the condition weights 1e6 ** (j / (D - 1)) of HighConditionedElliptic as numpy computes them, read as exact rationals
@@ -200,11 +220,11 @@ def main(tier: str) -> int:
         tbl = ", ".join("(%d, %s, %s)" % (i, _q(v), _q(np.cos(np.float64(v) / np.sqrt(np.float64(i + 1))))) for i, v in ent)
         return "(fun i a => ((([%s] : List (Nat × Rat × Rat)).find? (fun t => t.1 == i && t.2.1 == a)).map (·.2.2)).getD 0) " % tbl
     klines = ["import TFV.Generated.Src.Bench_OneMax_f", "import TFV.Generated.Src.Bench_Sphere_f", "import TFV.Generated.Src.Bench_Schwefel12_f",
-              "import TFV.Generated.Src.Bench_Rosenbrock_f", "import TFV.Generated.Src.Bench_Rastrigin_f", "import TFV.Generated.Src.Bench_Griewank_f", "import TFV.Generated.Src.Bench_Elliptic_f", "open TFV TFV.Generated.Src",
+              "import TFV.Generated.Src.Bench_Rosenbrock_f", "import TFV.Generated.Src.Bench_Rastrigin_f", "import TFV.Generated.Src.Bench_Griewank_f", "import TFV.Generated.Src.Bench_Elliptic_f", "import TFV.Generated.Src.Bench_Ackley_f", "open TFV TFV.Generated.Src",
               "def showQ : Option (List Rat) → String | none => \"none\" | some v => toString (v.map fun q => (q.num, q.den))"]
     for kname, Xk in kcases:
         mtx = "{ ncols := %d, rows := [%s] }" % (Xk.shape[1], ", ".join("[" + ", ".join("(%d : Rat) / %d" % (_Fr(float(v)).numerator, _Fr(float(v)).denominator) for v in row) + "]" for row in Xk))
-        klines.append("#eval IO.println (showQ (Bench_%s_f %s%s))" % (kname, "(fun _ => 1) " if kname == "Rastrigin" else _csi_table(Xk) if kname == "Griewank" else _cw_table(Xk.shape[1]) if kname == "Elliptic" else "", mtx))
+        klines.append("#eval IO.println (showQ (Bench_%s_f %s%s))" % (kname, "(fun _ => 1) " if kname == "Rastrigin" else _csi_table(Xk) if kname == "Griewank" else _cw_table(Xk.shape[1]) if kname == "Elliptic" else _ACK if kname == "Ackley" else "", mtx))
     kaudit = C.LEAN / "TFV" / "Audit" / "C20_np.lean"
     kaudit.parent.mkdir(parents=True, exist_ok=True)
     kaudit.write_text("\n".join(klines) + "\n")
@@ -216,7 +236,7 @@ def main(tier: str) -> int:
         import re as _re
         for (kname, Xk), g in zip(kcases, kgot):
             try:
-                real = [float(v) for v in np.asarray(cls_of[kname]().f(Xk), dtype=np.float64).reshape(-1)]
+                real = [float(v) for v in np.asarray(_real_f(kname, Xk), dtype=np.float64).reshape(-1)]
             except Exception:
                 real = None
             vals = None if g == "none" else [int(a) / int(b) for a, b in _re.findall(r"\((-?\d+), (\d+)\)", g)]
